@@ -867,7 +867,10 @@ def apply_arith_methods(facts, log):
             sites = []
             for bi, t in b.calls():
                 fn = t["func"].get("fn") if isinstance(t["func"], dict) else None
-                if fn and fn.get("name") in _ARITH and (fn.get("dp") or "").startswith("core::num::") and len(t["args"]) == 2 \
+                narrow = any(k in str(fn.get("path") if fn else "") for k in ("impl u8>", "impl u16>", "impl i8>", "impl i16>"))
+                # on 8- / 16-bit operands the saturating / wrapping forms differ from + / - for values a protocol field can take
+                # (a length octet of 254): they are left as calls, which the bounds / layout rules do not accept as linear arithmetic
+                if fn and not narrow and fn.get("name") in _ARITH and (fn.get("dp") or "").startswith("core::num::") and len(t["args"]) == 2 \
                         and t.get("t") is not None:
                     sites.append((bi, _ARITH[fn["name"]]))
             if not sites:
